@@ -121,3 +121,13 @@ Theorem C17_loc_fixed_general :
     (o, spec_line (encode file) o, spec_col (encode file) o + 1, spec_line_start (encode file) o).
 Proof. exact loc_fixed_general. Qed.
 Print Assumptions C17_loc_fixed_general.
+
+(** FINDING C17-jsformat-column-plus-one: JsFormat (libjsonnet trace format 1) prints the right
+    line but, for EVERY located frame, a column one larger than the column of the construct. *)
+Theorem C17_jsformat_column_refuted :
+  forall file a b,
+    known_multibyte file [a; b] = false -> a <> b -> a <= blen file -> b <= blen file ->
+    let locs := offset_to_location Cur file [a; b] in
+    print_js (nth 0 locs zero_loc) = (spec_line (encode file) a, spec_col (encode file) a + 1).
+Proof. exact jsformat_column. Qed.
+Print Assumptions C17_jsformat_column_refuted.
